@@ -8,3 +8,6 @@ import MtailVerif.Props.C02
 #print axioms MtailVerif.C02.checkerAfter_skeletons
 #print axioms MtailVerif.C02.optBefore_skeletons
 #print axioms MtailVerif.C02.optAfter_skeletons
+#print axioms MtailVerif.C02.f_vm_vm_skeletons
+#print axioms MtailVerif.C02.f_opt_opt_skeletons
+#print axioms MtailVerif.C02.f_compiler_compiler_skeletons
